@@ -114,11 +114,15 @@ def c04(tier):
     hs = histories(ck, tier, faults=True)
     obs = replay(binary, hs)
     compare(ck, hs, obs, {"store"})
+    import p_overlap
+    p_overlap.overlap(ck, binary, tier)
     ck.extra["writes_with_injected_storage_fault"] = sum(1 for h in hs for s in h["steps"] if "storage-fault" in s["reply"])
     ck.sample({"history": hs[0]["run"], "steps": [{"op": s["op"], "nid": s["nid"], "args": s["args"], "ok": s["ok"]} for s in hs[0]["steps"][:6]]})
     ck.extra["histories"] = len(hs)
     ck.rule = ("TLC draws API histories from Store.tla with the reply and both networks' multisets after every step; the harness "
-               "executes them alternately over REST and gRPC with adversarial concrete strings; non-trivial: a successful write that changed the multiset")
+               "executes them alternately over REST and gRPC with adversarial concrete strings; non-trivial: a successful write that changed the multiset. "
+               "Keto.tla (checks that overlap writes, at the grain of the engine's storage reads) is model checked and every write schedule it "
+               "emits is replayed on the real engine; the recorded reads, writes and answers are validated by TraceKeto.tla")
     ck.assumptions = ["sqlite in-memory backend only", "check replies use configuration-free namespaces (direct + subject-set expansion)"]
     ck.finish()
 
